@@ -45,7 +45,9 @@ MODES = {            # name: (db_session options, model cfg [immediate, checks])
 }
 COMMIT_VARIANTS = ['commit', 'db_commit', 'flush_commit']      # commit() / db.commit() / flush(); commit() INSIDE the db_session
 KNOWN_KEY_NOCHECK = 'nocheck-session-stale-write-after-commit'
-LOCK_VARIANTS = ['get', 'get_nowait', 'get_skip', 'query', 'query_nowait', 'query_skip', 'lambda_get']
+LOCK_VARIANTS = ['get', 'get_nowait', 'get_skip', 'query', 'query_nowait', 'query_skip', 'lambda_get', 'get_unique', 'get_composite']
+# 'get_reverse' (T.get_for_update(p=P[o])): the unchanged code cannot build this query (NotImplementedError: no column on that side) -
+# the session FAILS, which the property allows; what it must never do is hand out the object without a lock.  Oracle only.
 
 
 class Abort(Exception): pass
@@ -57,13 +59,24 @@ class Env(object): pass
 def define(tr, path):
     from pony.orm import Database, Required, db_session, select, flush
     db = Database()
+    from pony.orm import Optional, composite_key
     class T(db.Entity):
         _table_ = 't'
         x = Required(int)
+        # the other lookup paths of EntityMeta._find_in_cache_ / _find_in_db_: a simple unique key, a composite key, and the
+        # column-less side of a one-to-one relationship
+        code = Required(int, unique=True)
+        ka = Required(int)
+        kb = Required(int)
+        composite_key(ka, kb)
+        p = Optional('P')
+    class P(db.Entity):
+        _table_ = 'p'
+        t = Required(T)
     from pony.orm import commit
     db.bind('sqlite', path, create_db=True, timeout=SQLITE_TIMEOUT, **tr.bind_kwargs())
     E = Env()
-    E.db = db; E.T = T; E.db_session = db_session; E.select = select; E.flush = flush; E.commit = commit
+    E.db = db; E.T = T; E.P = P; E.db_session = db_session; E.select = select; E.flush = flush; E.commit = commit
     return E
 
 
@@ -164,6 +177,9 @@ def lock_load(E, o, variant):
     if variant == 'query_nowait': return E.select(t for t in T if t.id == o).for_update(nowait=True)[:][0]
     if variant == 'query_skip': return E.select(t for t in T if t.id == o).for_update(skip_locked=True)[:][0]
     if variant == 'lambda_get': return T.get_for_update(lambda t: t.id == o)
+    if variant == 'get_unique': return T.get_for_update(code=100 + o)                 # simple unique key
+    if variant == 'get_composite': return T.get_for_update(ka=o, kb=7)                # composite key
+    if variant == 'get_reverse': return T.get_for_update(p=E.P[o])                    # reverse side of a one-to-one (no column on T)
     raise ValueError(variant)
 
 
@@ -195,6 +211,7 @@ def outcome_of(e):
     if 'database is locked' in str(e): return 'busy'
     if isinstance(e, core.OptimisticCheckError): return 'OptimisticCheckError'
     if isinstance(e, core.UnrepeatableReadError): return 'UnrepeatableReadError'
+    if isinstance(e, NotImplementedError): return 'NotImplementedError'       # an explicit refusal: the session fails
     return 'other:%s:%s' % (name, str(e)[:120])
 
 
@@ -214,7 +231,7 @@ def run_case(workdir, case):
         envs[d] = E
     E0 = envs[doms[0]]
     with E0.db_session:
-        for o in OBJS: E0.T(id=o, x=INITIAL[o])
+        for o in OBJS: E0.P(id=o, t=E0.T(id=o, x=INITIAL[o], code=100 + o, ka=o, kb=7))
     for E in envs.values():
         E.db.disconnect()
         prov = E.db.provider
@@ -428,6 +445,7 @@ def oracle(case, obs):
 
 def model_request(case, obs):
     """the observed scheduler steps as a model schedule + the results to expect"""
+    if any(a[0] == 'lock' and a[2] == 'get_reverse' for t in case['threads'] for a in t['prog']): return None      # oracle only
     sched, expect = [], []
     pos = [0] * len(case['threads'])
     for e in obs['log']:
@@ -474,6 +492,7 @@ def model_request_fine(case, obs):
     every model step) or None."""
     threads = case['threads']
     if any(t['dom'] != 0 for t in threads): return None
+    if any(a[0] == 'lock' and a[2] == 'get_reverse' for t in threads for a in t['prog']): return None
     n = len(threads)
     fail_at = [None] * n
     for e in obs['log']:
@@ -584,6 +603,18 @@ PAIRS = [
     ('optimistic-vs-optimistic', [opt_writer(), opt_writer()]),
     ('reader-vs-locker', [P('optimistic', [['read', 1], ['read', 2], C]), locker('get')]),
     ('set-vs-locker', [P('optimistic', [['read', 1], ['update', 1, 77], C]), locker('query')]),
+    # a locking load of an object that a plain load of the SAME session has already put into the identity map, through every
+    # lookup path of EntityMeta._find_in_cache_ (primary key, simple unique key, composite key, reverse one-to-one): it must
+    # still query under the lock (or refuse); the contender must wait or fail while the lock is held
+    ('cached-then-lock-get', [P('optimistic', [['read', 1], ['lock', 1, 'get'], ['update', 1, 'inc'], C]), opt_writer()]),
+    ('cached-then-lock-get-vs-pessimistic', [P('optimistic', [['read', 1], ['lock', 1, 'get'], ['update', 1, 'inc'], C]), mode_writer('pessimistic')]),
+    ('cached-then-lock-get_unique', [P('optimistic', [['read', 1], ['lock', 1, 'get_unique'], ['update', 1, 'inc'], C]), opt_writer()]),
+    ('cached-then-lock-get_unique-vs-pessimistic', [P('optimistic', [['read', 1], ['lock', 1, 'get_unique'], ['update', 1, 'inc'], C]), mode_writer('pessimistic')]),
+    ('cached-then-lock-get_composite', [P('optimistic', [['read', 1], ['lock', 1, 'get_composite'], ['update', 1, 'inc'], C]), opt_writer()]),
+    ('cached-then-lock-get_composite-vs-pessimistic', [P('optimistic', [['read', 1], ['lock', 1, 'get_composite'], ['update', 1, 'inc'], C]), mode_writer('pessimistic')]),
+    ('cached-then-lock-get_reverse', [P('optimistic', [['read', 1], ['lock', 1, 'get_reverse'], ['update', 1, 'inc'], C]), opt_writer()]),
+    ('cached-then-lock-get_reverse-vs-pessimistic', [P('optimistic', [['read', 1], ['lock', 1, 'get_reverse'], ['update', 1, 'inc'], C]), mode_writer('pessimistic')]),
+    ('cached-then-lock-unique-midcommit', [P('optimistic', [['lock', 1, 'get_unique'], ['update', 1, 'inc'], CM('commit'), ['lock', 1, 'get_composite'], ['update', 1, 'inc'], C]), opt_writer()]),
     # several transactions in one session: commit() / db.commit() / flush()+commit() in the middle, then the same objects again
     ('midcommit-rewrite', [P('optimistic', [['lock', 1, 'get'], ['update', 1, 'inc'], CM('commit'), ['update', 1, 'inc'], C]), opt_writer()]),
     ('midcommit-relock', [P('optimistic', [['lock', 1, 'get'], CM('db_commit'), ['lock', 1, 'query'], ['update', 1, 'inc'], C]), opt_writer()]),
